@@ -95,6 +95,7 @@ type verdictInfo struct {
 	isErr   bool
 	class   string // outcome class: error class or tree feature class
 	facts   treeFacts
+	err     error
 }
 
 func bucket(n int) string {
@@ -131,7 +132,7 @@ func witness(in []byte, extra map[string]any) map[string]any {
 }
 
 // read calls the real parser with the crash monitor around it.
-func (h *harness) read(c *rep.Case, in []byte, phase string) (nodes []parser.Node, err error, crashed bool) {
+func (h *harness) read(c *rep.Case, in []byte, loc, phase string) (nodes []parser.Node, err error, crashed bool) {
 	defer func() {
 		if v := recover(); v != nil {
 			crashed = true
@@ -140,7 +141,7 @@ func (h *harness) read(c *rep.Case, in []byte, phase string) (nodes []parser.Nod
 				witness(in, map[string]any{"stack": truncate(st, 4000)}))
 		}
 	}()
-	nodes, err = parser.Read(bytes.NewReader(in), location)
+	nodes, err = parser.Read(bytes.NewReader(in), loc)
 	return
 }
 
@@ -156,14 +157,19 @@ func (h *harness) judge(c *rep.Case, st *stats, raw []byte, capNodes int64, orig
 	if len(raw) > maxInputLen {
 		raw = raw[:maxInputLen]
 	}
-	in := sanitize(raw)
+	return h.judgeAt(c, st, sanitize(raw), location, capNodes, origin)
+}
+
+// judgeAt: `in` is handed to the parser as is, with loc as its location.
+func (h *harness) judgeAt(c *rep.Case, st *stats, in []byte, loc string, capNodes int64, origin string) verdictInfo {
 	toks := refLex(in)
 	cost, nImports, _ := estimateExpansion(toks, capNodes)
 	if cost > capNodes {
 		st.count["skipped_over_expansion_cap"]++
+		st.count["by_origin/"+origin+"/skipped"]++
 		return verdictInfo{skipped: true, class: "skipped"}
 	}
-	sHolds, dollarToks := conditionS(toks)
+	sLevel, dollarToks := conditionS(toks)
 
 	// attribution of process-fatal events: the input is on disk before the call
 	if h.curFile != nil {
@@ -174,7 +180,7 @@ func (h *harness) judge(c *rep.Case, st *stats, raw []byte, capNodes int64, orig
 	st.evals++
 	st.count["inputs_parsed"]++
 	st.count["inputs_"+origin]++
-	nodes, err, crashed := h.read(c, in, "parse")
+	nodes, err, crashed := h.read(c, in, loc, "parse")
 	if crashed {
 		st.count["crashes"]++
 		st.shapes["crash/"+origin] = struct{}{}
@@ -183,18 +189,22 @@ func (h *harness) judge(c *rep.Case, st *stats, raw []byte, capNodes int64, orig
 	if err != nil {
 		ec := errClass(err)
 		st.count["outcome_error"]++
+		st.count["by_origin/"+origin+"/error"]++
+		if origin == "grammar" {
+			st.count["grammar_error/"+ec]++
+		}
 		st.count["error/"+ec]++
 		st.shapes["err/"+ec+"/"+origin] = struct{}{}
-		return verdictInfo{isErr: true, class: "err/" + ec}
+		return verdictInfo{isErr: true, class: "err/" + ec, err: err}
 	}
 	st.count["outcome_tree"]++
+	st.count["by_origin/"+origin+"/tree"]++
 
 	limit := sourceDepthLimit
 	if nImports > 0 {
 		limit = expandedDepthLimit
 	}
-	judgeMacros := sHolds
-	facts, viols := checkTree(nodes, judgeMacros, limit)
+	facts, viols := checkTree(nodes, sLevel, limit)
 	for _, v := range viols {
 		c.Violation(v.sig, v.what, witness(in, map[string]any{"origin": origin}))
 	}
@@ -207,9 +217,12 @@ func (h *harness) judge(c *rep.Case, st *stats, raw []byte, capNodes int64, orig
 		st.count["trees_from_input_with_import_token"]++
 	}
 	if dollarToks > 0 {
-		if sHolds {
-			st.count["macro_clause_judged_trees_with_macro_refs"]++
-		} else {
+		switch sLevel {
+		case 2:
+			st.count["macro_clause_judged_S_trees_with_macro_refs"]++
+		case 1:
+			st.count["macro_clause_judged_S1_trees_with_macro_refs"]++
+		default:
 			st.count["macro_clause_not_judged_outside_S"]++
 		}
 	}
@@ -235,7 +248,7 @@ func (h *harness) judge(c *rep.Case, st *stats, raw []byte, capNodes int64, orig
 			st.count["roundtrip_judged_nonempty"]++
 		}
 		rt = "rt-ok"
-		nodes2, err2, crashed2 := h.read(c, []byte(text), "reparse")
+		nodes2, err2, crashed2 := h.read(c, []byte(text), loc, "reparse")
 		switch {
 		case crashed2:
 			rt = "rt-crash"
@@ -252,7 +265,7 @@ func (h *harness) judge(c *rep.Case, st *stats, raw []byte, capNodes int64, orig
 		}
 	}
 	class := fmt.Sprintf("tree/n=%s/d=%s/args=%s/eb=%v/imp=%v/S=%v/$=%v/%s", bucket(facts.nodes), bucket(facts.depth), bucket(facts.maxArgs),
-		facts.emptyBlk > 0, nImports > 0, sHolds, facts.hasDollar, rt)
+		facts.emptyBlk > 0, nImports > 0, sLevel, facts.hasDollar, rt)
 	st.shapes[class+"/"+origin] = struct{}{}
 	return verdictInfo{class: class, facts: facts}
 }
@@ -288,7 +301,7 @@ func (h *harness) run(i int, id string, fn func(c *rep.Case, st *stats)) {
 func TestVerif(t *testing.T) {
 	r := rep.Open("C20")
 	defer r.Close()
-	h := &harness{r: r, memLimit: 6 << 30}
+	h := &harness{r: r, memLimit: 3 << 30}
 	h.envGone = envSetup()
 	sh, _ := r.Shard()
 	f, err := os.OpenFile(filepath.Join(r.OutDir(), fmt.Sprintf("shard-%d.c20-current-input", sh)), os.O_CREATE|os.O_RDWR|os.O_TRUNC, 0o666)
@@ -319,7 +332,7 @@ func TestVerif(t *testing.T) {
 							st.shapes["feat/"+ft+"/"+outcomeKind(v)] = struct{}{}
 						}
 						if b == 0 && k < 3 {
-							r.Sample(map[string]any{"origin": "grammar", "input": text, "outcome": v.class})
+							r.Sample(map[string]any{"origin": "grammar", "input": truncate(text, 600), "outcome": v.class})
 						}
 					}
 				case 1:
@@ -331,7 +344,7 @@ func TestVerif(t *testing.T) {
 					m := mutate(p, []byte(text), rounds)
 					v := h.judge(c, st, m, capMutated, "mutated")
 					if b == 0 && k < 6 && !v.skipped {
-						r.Sample(map[string]any{"origin": "mutated", "input_go_quoted": strconv.Quote(string(m)), "outcome": v.class})
+						r.Sample(map[string]any{"origin": "mutated", "input_go_quoted": truncate(strconv.Quote(string(m)), 600), "outcome": v.class})
 					}
 				default:
 					h.judge(c, st, genSoup(p), capMutated, "soup")
@@ -656,12 +669,12 @@ func minInt(a, b int) int {
 func inputFeatures(in []byte) string {
 	s := string(in)
 	var b strings.Builder
-	for _, f := range []string{"import", "$(", "(", "{env:", "\"", "\\\n", "\\\"", "#", "\r", "}\n", "} ", "{ ", "=", "\x00"} {
-		n := strings.Count(s, f)
-		if n > 3 {
-			n = 3
+	for _, f := range []string{"import", "$(", "{env:", "\"", "\\\n", "#", "(s"} {
+		if strings.Contains(s, f) {
+			b.WriteByte('1')
+		} else {
+			b.WriteByte('0')
 		}
-		b.WriteByte(byte('0' + n))
 	}
 	return b.String()
 }
